@@ -1270,6 +1270,15 @@ void run_program(vf::Run& R, Program const& prog, RaySet const& rs_default, RayS
     }
     catch (std::exception const& e)
     {
+        if (family == "file" || family == "legacy")
+        {
+            // these inputs are produced by the READER under test from a text that is valid by
+            // construction (bundled with the code / written in the documented legacy spellings)
+            R.count("evaluations");
+            R.count("programs:" + family);
+            rp.fail("reader:throws", fmt("from_json refused a valid text: %.600s", e.what()));
+            return;
+        }
         // The construction API refused this combination (C09's domain, not ours)
         R.count("programs_not_constructible");
         R.tag("skip:" + family + ":construction-threw");
